@@ -278,69 +278,92 @@ func ruleMergeNewer(c *Ctx) {
 	del, _ := constIntVal(c.P.Const("DataDeleteFlag"))
 	n := 0
 	seen := map[*ssa.Function]bool{}
-	instrs(m, func(in ssa.Instruction) {
-		b, ok := in.(*ssa.BinOp)
-		if !ok {
-			return
+	// the comparison may sit in Merge itself or in a helper Merge calls with the looked-up record
+	subjects := []*ssa.Function{m}
+	calls(m, func(ci ssa.CallInstruction) {
+		if cal := ci.Common().StaticCallee(); cal != nil && c.P.inModule(cal) && cal.Blocks != nil && cal.Pkg == c.P.Main {
+			subjects = append(subjects, cal)
 		}
-		switch b.Op {
-		case token.GTR, token.LSS, token.GEQ, token.LEQ, token.EQL, token.NEQ:
-		default:
-			return
-		}
-		for _, side := range []ssa.Value{b.X, b.Y} {
-			if !(isFieldLoad(side, "Hint", "fileID") || isFieldLoad(side, "Hint", "dataPos")) {
-				continue
+	})
+	for _, subj := range subjects {
+		subj := subj
+		instrs(subj, func(in ssa.Instruction) {
+			b, ok := in.(*ssa.BinOp)
+			if !ok {
+				return
 			}
-			root, _ := splitPath(side)
-			var call *ssa.Call
-			switch r := root.(type) {
-			case *ssa.Extract:
-				call, _ = r.Tuple.(*ssa.Call)
-			case *ssa.Call:
-				call = r
+			switch b.Op {
+			case token.GTR, token.LSS, token.GEQ, token.LEQ, token.EQL, token.NEQ:
+			default:
+				return
 			}
-			if call == nil {
-				continue
-			}
-			cal := call.Call.StaticCallee()
-			if cal == nil || !c.P.inModule(cal) || seen[cal] {
-				continue
-			}
-			seen[cal] = true
-			n++
-			// liveness tests in the cone of the lookup (the B+ tree itself excluded below Find)
-			var offender ssa.Instruction
-			var where *ssa.Function
-			for _, g := range c.P.ModCone(cal) {
-				instrs(g, func(in ssa.Instruction) {
-					if offender != nil {
-						return
-					}
-					if cc := callOf(in); cc != nil && (calleeIs(cc, modPath, "", "IsExpired") || calleeIs(cc, modPath, "Record", "IsExpired")) {
-						offender, where = in, g
-						return
-					}
-					if bo, ok := in.(*ssa.BinOp); ok && (bo.Op == token.EQL || bo.Op == token.NEQ) {
-						for _, p := range [][2]ssa.Value{{bo.X, bo.Y}, {bo.Y, bo.X}} {
-							if isFieldLoad(p[0], "MetaData", "Flag") {
-								if k, ok := constInt(p[1]); ok && k == del {
-									offender, where = in, g
-								}
+			for _, side := range []ssa.Value{b.X, b.Y} {
+				if !(isFieldLoad(side, "Hint", "fileID") || isFieldLoad(side, "Hint", "dataPos")) {
+					continue
+				}
+				root, _ := splitPath(side)
+				if p, isParam := root.(*ssa.Parameter); isParam && subj != m {
+					// the record is a parameter of the helper: take what Merge passes
+					root = nil
+					for _, s := range c.P.CallersOf(subj) {
+						if s.Parent() == m {
+							if idx := paramIndex(subj, p); idx < len(s.Common().Args) {
+								root, _ = splitPath(s.Common().Args[idx])
 							}
 						}
 					}
-				})
+				} else if subj != m {
+					continue
+				}
+				var call *ssa.Call
+				switch r := root.(type) {
+				case *ssa.Extract:
+					call, _ = r.Tuple.(*ssa.Call)
+				case *ssa.Call:
+					call = r
+				}
+				if call == nil {
+					continue
+				}
+				cal := call.Call.StaticCallee()
+				if cal == nil || !c.P.inModule(cal) || seen[cal] {
+					continue
+				}
+				seen[cal] = true
+				n++
+				// liveness tests in the cone of the lookup (the B+ tree itself excluded below Find)
+				var offender ssa.Instruction
+				var where *ssa.Function
+				for _, g := range c.P.ModCone(cal) {
+					instrs(g, func(in ssa.Instruction) {
+						if offender != nil {
+							return
+						}
+						if cc := callOf(in); cc != nil && (calleeIs(cc, modPath, "", "IsExpired") || calleeIs(cc, modPath, "Record", "IsExpired")) {
+							offender, where = in, g
+							return
+						}
+						if bo, ok := in.(*ssa.BinOp); ok && (bo.Op == token.EQL || bo.Op == token.NEQ) {
+							for _, p := range [][2]ssa.Value{{bo.X, bo.Y}, {bo.Y, bo.X}} {
+								if isFieldLoad(p[0], "MetaData", "Flag") {
+									if k, ok := constInt(p[1]); ok && k == del {
+										offender, where = in, g
+									}
+								}
+							}
+						}
+					})
+				}
+				c.touch(cal)
+				if offender != nil {
+					c.bad(fnName(m), "the newer-record lookup ("+fnName(cal)+") is independent of liveness", c.P.ipos(offender),
+						"the index lookup that Merge uses to recognise superseded records tests tombstones or expiry (in "+fnName(where)+"): when the newest record of a key is deleted or expired the lookup reports nothing, the older record is taken for the newest, rewritten with a fresh committed transaction id and comes back to life after the merge")
+				} else {
+					c.ok(fnName(m), "the newer-record lookup ("+fnName(cal)+") is independent of liveness", c.P.ipos(call), "")
+				}
 			}
-			c.touch(cal)
-			if offender != nil {
-				c.bad(fnName(m), "the newer-record lookup ("+fnName(cal)+") is independent of liveness", c.P.ipos(offender),
-					"the index lookup that Merge uses to recognise superseded records tests tombstones or expiry (in "+fnName(where)+"): when the newest record of a key is deleted or expired the lookup reports nothing, the older record is taken for the newest, rewritten with a fresh committed transaction id and comes back to life after the merge")
-			} else {
-				c.ok(fnName(m), "the newer-record lookup ("+fnName(cal)+") is independent of liveness", c.P.ipos(call), "")
-			}
-		}
-	})
+		})
+	}
 	c.Sites += n
 	c.minInstances("index lookups compared with the scan position in Merge", n, 1)
 }
